@@ -841,6 +841,20 @@ pub fn generate(seed: u64, cases: usize, out: &mut Vec<String>) {
         }
     }
 
+    // wide plans: many cross-joined patterns (the join-order search keeps relation subsets in a
+    // u64), long operator chains and long clause lists; the label matches nothing, so the cross
+    // product is empty and the line is about planning, not about running time
+    for lang in ["gql", "cypher"] {
+        for n in [12usize, 17, 30, 40, 63, 64, 65, 70, 130] {
+            let q = (0..n).map(|i| format!("MATCH (a{}:NoSuchLabel)", i)).collect::<Vec<_>>().join(" ") + " RETURN count(*)";
+            emit_run(out, lang, "small", &q);
+        }
+        let chain = vec!["n.age > 1"; 300].join(" AND ");
+        emit_run(out, lang, "small", &format!("MATCH (n:Person) WHERE {} RETURN n.name", chain));
+        let sum = vec!["1"; 400].join(" + ");
+        emit_run(out, lang, "small", &format!("MATCH (n:Person) RETURN {}", sum));
+    }
+
     // ---- generated cases ----
     for c in 0..cases {
         out.push(format!("# case {} seed {}", c, seed));
